@@ -283,7 +283,11 @@ def is_top_expr(r, fn: FuncInfo, e, al=None, depth: int = 0) -> bool:
         return t is not None and _index_is_top(e)
     if isinstance(e, ast.Name) and depth < 3:
         d = _assignments_to(fn, e.id)
-        return len(d) == 1 and d[0][2] is None and d[0][1] is not None and is_top_expr(r, fn, d[0][1], al, depth + 1)
+        if not d or any(x[2] is not None or x[1] is None for x in d):
+            return False
+        # every definition is the top of the stack, or None ('no context' -- the caller tests for it)
+        vals = [x[1] for x in d if not (isinstance(x[1], ast.Constant) and x[1].value is None)]
+        return bool(vals) and all(is_top_expr(r, fn, v, al, depth + 1) for v in vals)
     if isinstance(e, ast.Call) and depth < 3:
         t = r.m.resolve_call(fn, e)
         if t.kind == "func" and t.target is not fn:
